@@ -1,9 +1,2 @@
--- GENERATED by `kvh -profile notifyprog` from pkg/notify/notify.go of the current /repo. Do not edit.
-import Klev.Notify
-namespace Klev.Gen
-open Klev.Notify
-def waitProg : List Instr := [Instr.fastPath, Instr.recvBarrier, Instr.ifNotOkRet Ret.errClosed, Instr.probe, Instr.sendBarrierB, Instr.ifUpdRetNil, Instr.selectWait]
-def setProg : List Instr := [Instr.recvBarrier, Instr.ifNotOkRet Ret.none_, Instr.storeMax, Instr.closeB, Instr.sendBarrierNew, Instr.ret Ret.none_]
-def closeProg : List Instr := [Instr.recvBarrier, Instr.ifNotOkRet Ret.errClosed, Instr.closeB, Instr.closeBarrier, Instr.ret Ret.nil]
-def barrierCapOneWithToken : Bool := true
-end Klev.Gen
+-- translator failed on the current source
+#eval (throw (IO.userError "translator notifyprog failed: notifyprog: Wait: unrecognised statement: for { select { case <-b: return nil case <-ctx.Done(): return ctx.Err() case <-time.After(time.Second): if w.nextOffset.Load() >= offset { return nil } } }") : IO Unit)
